@@ -46,7 +46,15 @@ Proof. intros a. cbn. repeat split; cbn; auto; discriminate. Qed.
 Lemma step_inv vol s e : inv vol s -> trace_ok vol (trace s) -> inv vol (step vol s e) /\ trace_ok vol (trace (step vol s e)).
 Proof.
   intros I T. unfold step. destruct (failed s); [auto|].
-  destruct e as [a ext | a v | a v].
+  destruct e as [a ext | a v | a v | exts].
+  4:{ (* Flush *)
+      destruct (negb (existsb _ exts)); [split; [exact I | exact T]|].
+      destruct (flush_check vol s exts); [|split; [exact I | exact T]].
+      split; [|exact T]. intros b. cbn [cells trace]. pose proof (I b) as Ib. unfold flush_cell.
+      destruct (wbit (cells s b)) eqn:W; [|exact Ib]. destruct Ib as (J1 & J2 & J3).
+      destruct (vol b) eqn:V.
+      - split; [reflexivity|]. split; [discriminate | exact J3].
+      - split; [reflexivity|]. split; [|reflexivity]. intros _ v' L. destruct (J2 eq_refl v' L) as [C _]. cbn. split; [exact C | reflexivity]. }
   - (* Read *)
     set (c0 := cells s a).
     assert (exists r, (match cval c0 with Some _ => Some c0 | None => load_cell (vol a) c0 ext end) = r
@@ -99,10 +107,11 @@ Lemma step_no_write vol s e : is_write e = false -> (forall b w, ~ In (TWrite b 
   forall b w, ~ In (TWrite b w) (trace (step vol s e)).
 Proof.
   intros W H. unfold step. destruct (failed s); [exact H|].
-  destruct e as [a ext | a v | a v]; [| discriminate |].
+  destruct e as [a ext | a v | a v | exts]; [| discriminate | |].
   - destruct (match cval (cells s a) with Some _ => Some (cells s a) | None => load_cell (vol a) (cells s a) ext end) as [c|]; [|exact H].
     destruct (cval c); [|exact H]. cbn [trace]. intros b w [E|E]; [discriminate | now apply H in E].
   - destruct (load_cell (vol a) (cells s a) v); exact H.
+  - destruct (negb (existsb _ exts)); [exact H|]. destruct (flush_check vol s exts); exact H.
 Qed.
 
 Lemma run_no_write vol evs : forall s, forallb (fun e => negb (is_write e)) evs = true ->
